@@ -25,8 +25,8 @@ PROP = {
                     'python3 cross-check is skipped (recorded in evidence extra) if python3 is not installed'],
     'tests': [
         {'name': 'TestVerifC13_KeyLength', 'unit': OBFS, 'kind': 'plain'},
-        {'name': 'TestVerifC13_WireRoundTripJunk', 'unit': OBFS, 'quick': 20000, 'thorough': 120000, 'shards_thorough': 8},
-        {'name': 'TestVerifC13_Concurrent', 'unit': OBFS, 'race': True, 'quick': 200, 'thorough': 1500, 'shards_thorough': 8,
+        {'name': 'TestVerifC13_WireRoundTripJunk', 'unit': OBFS, 'quick': 20000, 'thorough': 400000, 'shards_thorough': 12},
+        {'name': 'TestVerifC13_Concurrent', 'unit': OBFS, 'race': True, 'quick': 200, 'thorough': 4000, 'shards_thorough': 12,
          'timeout_quick': 900},
     ],
 }
